@@ -169,7 +169,7 @@ var (
 	vUris    = []string{"/", "/index.php", "/api/v1/update", "/a b", "/ü/𝄞", "", "/js/jquery-3.6.0.min.js?x=1&y=2", "/" + strings.Repeat("p/", 200)}
 	vUA      = []string{"Mozilla/5.0 (Windows NT 10.0)", "", "Mozilla/5.0 (Windows NT 6.1; WOW64) AppleWebKit/537.36 (KHTML, like Gecko) Chrome/96.0.4664.110 Safari/537.36", "ü-agent/1.0 𝄞", "curl/8"}
 	vKill    = []int64{0, 0, 0, 1, 133500000000000000, 1 << 32, 1<<32 + 5, 1<<63 - 1, -1, 0x0102030405060708, 0xFFFFFFFF}
-	vMethod  = []string{"POST", "POST", "POST", "POST", "post", "Post", "GET", "get", "Get", "PUT", ""}
+	vMethod  = []string{"POST", "POST", "POST", "POST", "POST", "POST", "POST", "POST", "post", "Post", "GET", "get", "Get", "PUT", ""}
 	vRot     = []string{"round-robin", "random", "round-robin", "random", "", "bogus"}
 	vPipe    = []string{"demon_pipe", "a", "pipe with space", "ünï𝄞", `x\y`, "", "mojo.5688.8052.183894939787088877", strings.Repeat("p", 200)}
 	vCred    = []string{"", "user", "p@ss:w/rd", "DOMAIN\\admin", "ü𝄞"}
@@ -350,7 +350,18 @@ func genSMB(r *rand.Rand) *SMBL {
 	return s
 }
 
+// genCase: about 60 % of the requests that contain a must-fail setting are drawn again, so
+// that most cases exercise the field-by-field comparison.
 func genCase(r *rand.Rand) *Case {
+	for {
+		c := genCase1(r)
+		if len(expect(c).mustFail) == 0 || r.Intn(100) >= 60 {
+			return c
+		}
+	}
+}
+
+func genCase1(r *rand.Rand) *Case {
 	c := &Case{Opt: genOptions(r), Format: 1 + r.Intn(5), Arch: 1 + r.Intn(2), Repeat: 1}
 	if r.Intn(100) < 80 {
 		c.LType, c.HTTP = ltHTTP, genHTTP(r)
